@@ -70,6 +70,9 @@ OPAQUE = {}      # atom name -> (function name, arguments) of every opaque appli
 def opaque(name, *args):
     atom = '%s(%s)' % (name, ', '.join(repr(a) for a in args))
     OPAQUE[atom] = (name, args)
+    if name not in ('abs', 'real', 'imag', 'norm2') and any(isinstance(a, Poly) and not a.is_real() for a in args):
+        from . import algebra
+        algebra.COMPLEX_ATOMS.add(atom)      # a transcendental function of a non-real argument is non-real in general
     return Poly.sym(atom)
 
 
